@@ -185,14 +185,18 @@ func (k *Kernel) exec(op int, r *simrt.Req, short int, fault *string) (ret int64
 		off := r.I1
 		if op == opWrite {
 			off = f.off
-			if f.flags&syscall.O_APPEND != 0 {
-				off = int64(len(f.ino.data))
-			}
+		}
+		if f.flags&syscall.O_APPEND != 0 {
+			// Linux appends on O_APPEND descriptors, for pwrite too
+			off = int64(len(f.ino.data))
 		}
 		if off < 0 {
 			return -1, syscall.EINVAL, args
 		}
 		want := len(r.B)
+		if want == 0 {
+			return 0, 0, args // a zero-length write has no effect, not even on the offset
+		}
 		if short >= 0 && short < want {
 			want = short
 		} else if short >= 0 {
@@ -236,6 +240,14 @@ func (k *Kernel) exec(op int, r *simrt.Req, short int, fault *string) (ret int64
 		args = fmt.Sprintf("%d,%d,%d", r.I0, r.I1, r.I2)
 		if f == nil {
 			return -1, syscall.EBADF, args
+		}
+		if f.ino.isDir {
+			// only rewinding a directory stream is modelled
+			if r.I1 == 0 && r.I2 == 0 {
+				f.dirPos, f.dirCur = 0, ""
+				return 0, 0, args
+			}
+			return -1, syscall.EINVAL, args
 		}
 		var base int64
 		switch r.I2 {
